@@ -17,7 +17,7 @@ CLAIMS = {
          'Per-step, plus the day loop of Matcher::process is proved to apply every SPLIT/UNSPLIT line of the day to the pool of its own security, in line order, after the day\'s sales and pooling (C10.applied: pool quantity == fold of ratio_effect over the day\'s lines); the rescaled-twin equivalence is relational (not decided); the pre-pass (compute_cost_offsets) has no split handling: see DESIGN F6.'),
  'C12': ('Verus: the 30-day look-ahead changes claims only at same-ticker purchases dated 1..30 days after the sale (fc_step), and stops reading at the first line beyond day 30; Kani: the break test fires only beyond day 30; the single-year window of the report selects exactly the dates of its tax year, so a later-dated disposal never enters an earlier year (C12.year_window: Kani harness and the Verus slice clauses shared with C07).',
          'L3 corollary C12.l3_quantities: appending lines dated after day x leaves total and Same Day leg quantity of day x unchanged (lemma over the proved characterisations). The full extension lemma (every leg, cost and gain of the prefix report unchanged by a suffix) is not machine-checked; a later capital return does change the cost of an earlier 30-day leg by design of the pre-pass.'),
- 'C15': ('Verus proves, for every function of the matcher unit, absence of Decimal division by zero, out-of-bounds indexing, integer overflow and non-termination (each function is one implicit obligation), given parser-valid input.',
+ 'C15': ('Verus proves, for every function of the matcher unit, absence of Decimal division by zero, out-of-bounds indexing, integer overflow and non-termination (each function is one implicit obligation), given parser-valid input; the validator flags a ledger iff some line carries a non-positive quantity or a negative price/fee (C15.validator); the JSON path rejects an operation iff a quantity it carries or a split ratio is not positive (C15.json_valid: validate_operation / validate_positive / validate_positive_ratio, the checks behind the MCP tools and JSON ledgers).',
          'Decimal overflow panics are outside A-dec (recorded as F4); parser, CLI, PDF, MCP effects are A-ext.'),
 }
 KANI_PROPS = {'C01', 'C07', 'C12', 'C19'}
